@@ -18,7 +18,7 @@ observation must equal what the harness prints after the tab).  Stateful: one ca
 * `glue`                                    → `script=<dump>`   `if (!modified) script.clear()` of DictCompiler::BuildPrism
 * `merge <key> <type> <cred> <tips> <n> (<str> <type> <cred> <tips>)×n` → `script=<dump>`  `Script::Merge` on the current script
 * `build` | `build noscript`                → `ok=1 format=<hex> n=<#keys> alphabet=<hex> map=<b>`  Build + Save + Load
-* `compile`                                 → as `build`: the real `DictCompiler::Compile` on generated dict/schema files vs `DictCompiler.prism`
+* `compile` | `compile again`               → as `build`: the real `DictCompiler::Compile` on generated dict/schema files vs `DictCompiler.prism`
   (`compile T` → `ok=T`: the table, not the prism, failed to build; nothing is compared)
 * `reload <format>`                         → `ok=<b>`   Load of the same file with the format tag replaced
 * `q <key>`                                 → `get=<v|-> has=<b> cps=<v:l,…|->`
@@ -169,7 +169,9 @@ def step (st : St) (line : String) : St × String :=
   | ["compile", "T"] =>
     -- the harness could not get a table out of `Table::Build` (outside this property): no prism to compare
     ({ st with built := none, prism := none }, "ok=T")
-  | ["compile"] =>
+  | ["compile"] | ["compile", "again"] =>
+    -- (`compile again`: the same dictionary compiled over its earlier outputs after the schema changed — or did not; what the
+    -- prism must hold is the same function of the current rules)
     match DictCompiler.scriptArg (Projection.load st.rules) st.syl with
     | none => ({ st with built := none, prism := none }, "ok=0")
     | some arg =>
